@@ -2,15 +2,16 @@
 """run_seeded.py [ids...]: apply each seeded change to /repo, run the check of the property it breaks (quick
 tier), undo the change, and record which checks caught it in /verif/seeded/RESULTS.json."""
 import json, os, subprocess, sys, time
-V = "/verif"
+V = os.environ.get("VERIF_DIR", "/verif")
+REPO = os.environ.get("VERIF_REPO", "/repo")
 ids = sys.argv[1:] or sorted(d for d in os.listdir(V + "/seeded") if os.path.isdir(V + "/seeded/" + d))
 extra = {}  # extra checks to try when the property's own check misses
 res = json.load(open(V + "/seeded/RESULTS.json")) if os.path.exists(V + "/seeded/RESULTS.json") else {}
 for sid in ids:
     d = V + "/seeded/" + sid
     prop = sid.split("_")[0]
-    assert subprocess.run(["git", "-C", "/repo", "status", "--porcelain"], capture_output=True).stdout == b"", "/repo not clean"
-    subprocess.run(["git", "-C", "/repo", "apply", d + "/patch.diff"], check=True)
+    assert subprocess.run(["git", "-C", REPO, "status", "--porcelain"], capture_output=True).stdout == b"", REPO + " not clean"
+    subprocess.run(["git", "-C", REPO, "apply", d + "/patch.diff"], check=True)
     try:
         caught = {}
         for chk in [prop] + [c for c in os.environ.get("ALSO", "").split(",") if c]:
@@ -22,6 +23,6 @@ for sid in ids:
         res[sid] = caught
         print(sid, {k: (v["exit"], (v["detail"] or [""])[0][:110]) for k, v in caught.items()}, flush=True)
     finally:
-        subprocess.run(["git", "-C", "/repo", "checkout", "--", "."], check=True)
-        subprocess.run(["git", "-C", "/repo", "clean", "-fdq"], check=True)
+        subprocess.run(["git", "-C", REPO, "checkout", "--", "."], check=True)
+        subprocess.run(["git", "-C", REPO, "clean", "-fdq"], check=True)
     json.dump(res, open(V + "/seeded/RESULTS.json", "w"), indent=1)
